@@ -19,7 +19,8 @@ import (
 // embeds it in the free-text header of a report; harnesses must not compare it (natively the real String runs).
 func init() {
 	extraIntrinsics = append(extraIntrinsics, func(e *Engine) {
-		if _, dup := e.intr["strconv.Itoa"]; !dup {
+		prevItoa := e.intr["strconv.Itoa"] // intr_c18.go: an opaque string for a symbolic int
+		{
 			e.intr["strconv.Itoa"] = func(e *Engine, st *State, cc *ssa.CallCommon, a []Value) Value {
 				n := asTerm(a[0])
 				if n.IsConst() {
@@ -29,6 +30,9 @@ func init() {
 				r := e.S.Check(st.pc, Not(inRange))
 				e.S.EndModel()
 				if r != Unsat {
+					if prevItoa != nil {
+						return prevItoa(e, st, cc, a)
+					}
 					unsupported("strconv.Itoa of a symbolic int that is not confined to 0..9 by the path condition")
 				}
 				b := ConstBV('9', 8)
